@@ -5,7 +5,9 @@ use crate::layout::SizeArray;
 /// Return true if a given shape and strides describe a contiguous layout in
 /// row-major ("C") order.
 pub fn is_contiguous<S: SizeArray, Strides: SizeArray>(shape: &S, strides: &Strides) -> bool {
-    let mut product = 1;
+    // Product of the sizes of the inner dimensions, or `None` if it overflows.
+    // In that case no stride can match it.
+    let mut product = Some(1usize);
     for (size, stride) in shape.iter().zip(strides.iter()).rev() {
         // Dimensions of size 1 cannot affect whether the tensor is contiguous,
         // since the only valid index is 0 and `0 * stride = 0` for any stride.
@@ -13,10 +15,13 @@ pub fn is_contiguous<S: SizeArray, Strides: SizeArray>(shape: &S, strides: &Stri
             continue;
         }
 
-        if stride != product {
+        let Some(inner_len) = product else {
+            return false;
+        };
+        if stride != inner_len {
             return false;
         }
-        product *= size;
+        product = inner_len.checked_mul(size);
     }
     true
 }
@@ -67,12 +72,22 @@ pub fn may_have_internal_overlap(shape: impl SizeArray, strides: impl SizeArray)
 
     // Verify that the stride for each dimension fully "steps over" the
     // previous dimension.
-    let mut max_offset = 0;
+    //
+    // If the maximum offset overflows, the layout cannot be used with any
+    // storage, and the comparison against larger strides would be meaningless,
+    // so report that it may overlap.
+    let mut max_offset: usize = 0;
     for (stride, shape) in stride_shape {
         if stride <= max_offset {
             return true;
         }
-        max_offset += (shape - 1) * stride;
+        let Some(new_max_offset) = (shape - 1)
+            .checked_mul(stride)
+            .and_then(|dim_max_offset| max_offset.checked_add(dim_max_offset))
+        else {
+            return true;
+        };
+        max_offset = new_max_offset;
     }
     false
 }
@@ -201,5 +216,28 @@ mod tests {
                 case.overlap
             );
         })
+    }
+
+    #[test]
+    fn test_overflow() {
+        let half_max = 1usize << (usize::BITS - 1);
+
+        // Product of inner dimension sizes wraps around to zero.
+        let (shape, strides) = ([2, half_max, 2], [0, 2, 1]);
+        assert!(!is_contiguous(&shape, &strides));
+        assert!(may_have_internal_overlap(shape, strides));
+
+        // Maximum offset wraps around to zero after the first dimension.
+        // Indices [0, 1] and [1, 0] map to the same offset.
+        for shape in [[3, 3], [3, 5]] {
+            let strides = [half_max, half_max];
+            assert!(!is_contiguous(&shape, &strides));
+            assert!(may_have_internal_overlap(shape, strides));
+        }
+
+        // Contiguous layout with a length that overflows.
+        let (shape, strides) = ([half_max, 4], [4, 1]);
+        assert!(is_contiguous(&shape, &strides));
+        assert!(!may_have_internal_overlap(shape, strides));
     }
 }
